@@ -134,10 +134,17 @@ type job struct {
 
 // jobs builds the whole case list of a tier (a function of seed and tier);
 // each child executes the jobs whose running number falls into its batch.
-func jobs(seed uint64, thorough bool) []job {
+//
+// keep selects by running number which jobs are materialised (nil: all); the
+// numbering does not depend on keep.
+func jobs(seed uint64, thorough bool, keep func(i int) bool) []job {
 	var out []job
-	add := func(fam string, n int, s caseSpec) {
-		out = append(out, job{id: fmt.Sprintf("%s/%d", fam, n), spec: s})
+	g := 0
+	add := func(fam string, n int, mk func() caseSpec) {
+		if keep == nil || keep(g) {
+			out = append(out, job{id: fmt.Sprintf("%s/%d", fam, n), spec: mk()})
+		}
+		g++
 	}
 	docs := fixedDocs()
 	nGen := 2
@@ -159,12 +166,14 @@ func jobs(seed uint64, thorough bool) []job {
 				if ci == 1 && en == enDoAdd {
 					exts[1].HasRes = false
 				}
-				add("nf", n, caseSpec{Doc: d, Entry: en, Exts: exts})
+				add("nf", n, func() caseSpec { return caseSpec{Doc: d, Entry: en, Exts: exts} })
 				n++
 			}
 		}
 	}
-	add("nf", n, caseSpec{Doc: docFromAtoms([]string{"a", "o2"}, nil), Entry: enPlanZero, Exts: cfg2})
+	add("nf", n, func() caseSpec {
+		return caseSpec{Doc: docFromAtoms([]string{"a", "o2"}, nil), Entry: enPlanZero, Exts: cfg2}
+	})
 	n++
 
 	// sf: every single-hook fault x every panic value, 1 and 2 extensions and two extensions sharing a name
@@ -179,7 +188,9 @@ func jobs(seed uint64, thorough bool) []job {
 					}
 					for _, nth := range nths {
 						for val := 0; val < nVals; val++ {
-							add("sf", n, caseSpec{Doc: d, Entry: doEntries[n%2], Exts: cfg, Faults: []fault{{Ext: ei, Hook: h, Nth: nth, Val: val}}})
+							add("sf", n, func() caseSpec {
+								return caseSpec{Doc: d, Entry: doEntries[n%2], Exts: cfg, Faults: []fault{{Ext: ei, Hook: h, Nth: nth, Val: val}}}
+							})
 							n++
 						}
 					}
@@ -203,7 +214,9 @@ func jobs(seed uint64, thorough bool) []job {
 							vals = []int{0, 1, 2, 3, 4, 5}
 						}
 						for _, val := range vals {
-							add("ep", n, caseSpec{Doc: d, Entry: en, Exts: cfg, Faults: []fault{{Ext: ei, Hook: h, Val: val}}})
+							add("ep", n, func() caseSpec {
+								return caseSpec{Doc: d, Entry: en, Exts: cfg, Faults: []fault{{Ext: ei, Hook: h, Val: val}}}
+							})
 							n++
 						}
 					}
@@ -221,13 +234,15 @@ func jobs(seed uint64, thorough bool) []job {
 	for di, d := range docs {
 		for ci, cfg := range [][]extSpec{cfg3, cfgSame3} {
 			for k := 0; k < per; k++ {
-				r := core.NewRNG(seed).Derive(core.HashString("C17/x3"), uint64(di), uint64(ci), uint64(k))
-				hs := reachable(d.Class, enDoConfig)
-				f := fault{Ext: r.Intn(len(cfg)), Hook: hs[r.Intn(len(hs))], Val: r.Intn(nVals)}
-				if (f.Hook == hRS || f.Hook == hRF) && r.Chance(50) {
-					f.Nth = r.Range(1, 3)
-				}
-				add("x3", n, caseSpec{Doc: d, Entry: doEntries[r.Intn(2)], Exts: cfg, Faults: []fault{f}})
+				add("x3", n, func() caseSpec {
+					r := core.NewRNG(seed).Derive(core.HashString("C17/x3"), uint64(di), uint64(ci), uint64(k))
+					hs := reachable(d.Class, enDoConfig)
+					f := fault{Ext: r.Intn(len(cfg)), Hook: hs[r.Intn(len(hs))], Val: r.Intn(nVals)}
+					if (f.Hook == hRS || f.Hook == hRF) && r.Chance(50) {
+						f.Nth = r.Range(1, 3)
+					}
+					return caseSpec{Doc: d, Entry: doEntries[r.Intn(2)], Exts: cfg, Faults: []fault{f}}
+				})
 				n++
 			}
 		}
@@ -239,36 +254,38 @@ func jobs(seed uint64, thorough bool) []job {
 		nm = 150000
 	}
 	for k := 0; k < nm; k++ {
-		r := core.NewRNG(seed).Derive(core.HashString("C17/mf"), uint64(k))
-		d := docs[r.Intn(len(docs))]
-		cfg := append([]extSpec(nil), allCfgs[r.Intn(len(allCfgs))]...)
-		for i := range cfg {
-			if r.Chance(25) {
-				cfg[i].HasRes = !cfg[i].HasRes
+		add("mf", k, func() caseSpec {
+			r := core.NewRNG(seed).Derive(core.HashString("C17/mf"), uint64(k))
+			d := docs[r.Intn(len(docs))]
+			cfg := append([]extSpec(nil), allCfgs[r.Intn(len(allCfgs))]...)
+			for i := range cfg {
+				if r.Chance(25) {
+					cfg[i].HasRes = !cfg[i].HasRes
+				}
 			}
-		}
-		en := doEntries[r.Intn(2)]
-		if reach(d.Class) >= 4 && r.Chance(30) {
-			en = []string{enExecute, enPlan}[r.Intn(2)]
-		}
-		hs := reachable(d.Class, en)
-		nf := r.Range(2, 4)
-		var fs []fault
-		seen := map[string]bool{}
-		for len(fs) < nf {
-			f := fault{Ext: r.Intn(len(cfg)), Hook: hs[r.Intn(len(hs))], Val: r.Intn(nVals)}
-			if (f.Hook == hRS || f.Hook == hRF) && r.Chance(50) {
-				f.Nth = r.Range(1, 3)
+			en := doEntries[r.Intn(2)]
+			if reach(d.Class) >= 4 && r.Chance(30) {
+				en = []string{enExecute, enPlan}[r.Intn(2)]
 			}
-			key := fmt.Sprintf("%d/%s", f.Ext, f.Hook)
-			if seen[key] {
-				nf-- // fewer distinct placements than asked for: keep what we have
-				continue
+			hs := reachable(d.Class, en)
+			nf := r.Range(2, 4)
+			var fs []fault
+			seen := map[string]bool{}
+			for len(fs) < nf {
+				f := fault{Ext: r.Intn(len(cfg)), Hook: hs[r.Intn(len(hs))], Val: r.Intn(nVals)}
+				if (f.Hook == hRS || f.Hook == hRF) && r.Chance(50) {
+					f.Nth = r.Range(1, 3)
+				}
+				key := fmt.Sprintf("%d/%s", f.Ext, f.Hook)
+				if seen[key] {
+					nf-- // fewer distinct placements than asked for: keep what we have
+					continue
+				}
+				seen[key] = true
+				fs = append(fs, f)
 			}
-			seen[key] = true
-			fs = append(fs, f)
-		}
-		add("mf", k, caseSpec{Doc: d, Entry: en, Exts: cfg, Faults: fs})
+			return caseSpec{Doc: d, Entry: en, Exts: cfg, Faults: fs}
+		})
 	}
 
 	// nm: Name() panicking (don't-care, recorded)
@@ -276,7 +293,9 @@ func jobs(seed uint64, thorough bool) []job {
 	for _, d := range []docSpec{docs[0], docFromAtoms([]string{"a", "o2"}, nil)} {
 		for _, cfg := range [][]extSpec{cfg1, cfg2} {
 			for nth := 0; nth <= 12; nth++ {
-				add("nm", n, caseSpec{Doc: d, Entry: doEntries[n%2], Exts: cfg, Faults: []fault{{Ext: 0, Hook: hName, Nth: nth, Val: n % nVals}}})
+				add("nm", n, func() caseSpec {
+					return caseSpec{Doc: d, Entry: doEntries[n%2], Exts: cfg, Faults: []fault{{Ext: 0, Hook: hName, Nth: nth, Val: n % nVals}}}
+				})
 				n++
 			}
 		}
@@ -290,7 +309,7 @@ func jobs(seed uint64, thorough bool) []job {
 			if h != "" {
 				s.Faults = []fault{{Ext: n % len(cfg), Hook: h, Val: n % nVals}}
 			}
-			add("cx", n, s)
+			add("cx", n, func() caseSpec { return s })
 			n++
 		}
 	}
@@ -312,10 +331,7 @@ func run(c *core.Child) {
 	// More Ps only add GC/scheduler wake-ups on the tiny per-case heaps.
 	runtime.GOMAXPROCS(2)
 	r := &runner{c: c, bases: map[string]*baseline{}, reported: map[string]int{}}
-	for i, j := range jobs(c.Seed, !c.Quick()) {
-		if i%c.NBatches != c.Batch {
-			continue
-		}
+	for _, j := range jobs(c.Seed, !c.Quick(), func(i int) bool { return i%c.NBatches == c.Batch }) {
 		if !c.Begin(j.id) {
 			continue
 		}
